@@ -202,7 +202,9 @@ def oracleConc (acc : Event → Bool) (groups : List (List Op)) (bs : List Batch
   let where_ (p : Batch → Bool) : List Nat := (bs.zipIdx.filter (fun bi => p bi.1)).map (·.2)
   -- exactly once
   if nong.any (fun e => !(bs.any fun b => b.links.contains (linkOf e))) then some "event-lost-link"
-  else if nong.any (fun e => isFlip e && (match specEntry e with | some x => !(allTyped.contains x) | none => false)) then
+  else if nong.any (fun e => isFlip e && (match specEntry e with
+      | some x => !(allTyped.contains x) && allTyped.any (fun y => y.id == e.id)
+      | none => false)) then
     some "class-transition-misclassified"
   else if nong.any (fun e => match specEntry e with | some x => !(allTyped.contains x) | none => false) then some "event-lost-entry"
   else if allTyped.any (fun x => allTyped.count x ≠ 1) then some "event-duplicated"
